@@ -165,6 +165,7 @@ def generate():
     nt = strip_comments(function_body(cpp, r"AlwaysUseNewThreadExecutor::invoke\s*\("))
     items.append(skel_def("skel_newthread_invoke", skeleton(nt, [r"::std::thread", "captured_function", "detach"])))
     items.append(str_list_def("stmts_newthread_invoke", _stmts(nt)))
+    items.append(str_list_def("stmts_newthread_dtor", _stmts(strip_comments(function_body(cpp, r"AlwaysUseNewThreadExecutor::~AlwaysUseNewThreadExecutor\s*\(")))))
     nj = strip_comments(function_body(cpp, r"AlwaysUseNewThreadExecutor::join\s*\("))
     items.append(skel_def("skel_newthread_join", skeleton(nj, ["usleep"])))
     items.append(str_list_def("stmts_newthread_join", _stmts(nj)))
